@@ -90,6 +90,28 @@ import hashlib as _hashlib, json as _json, random as _random
 VAR = _random.Random(0)     # per-case choice among EQUIVALENT ways a user can hand over the same content (reseeded per case)
 
 
+def as_set(cls, xs, tagged):
+    """A set with exactly the members xs (pairwise different), reached the way callers reach it: all at once, or naming a member
+    more than once within one batch, or in several extend / append steps that overlap -- a set keeps each member once."""
+    xs = list(xs)
+    r = VAR.random()
+    if not xs or r < 0.6:
+        return cls(xs, use_tag=tagged)
+    j = VAR.randrange(len(xs))
+    if r < 0.75:                                       # one batch naming a member twice (again right after, or at the end)
+        k = VAR.choice([j + 1, len(xs)])
+        return cls(xs[:k] + [xs[j]] + xs[k:], use_tag=tagged)
+    if r < 0.9:                                        # two batches that overlap, the second repeats itself
+        k = VAR.randrange(1, len(xs) + 1)
+        s = cls(xs[:k], use_tag=tagged)
+        s.extend([xs[VAR.randrange(k)]] + xs[k:] + xs[k:k + 1])
+        return s
+    s = cls(xs[:1], use_tag=tagged)                    # member by member, one of them twice
+    for x in xs[1:] + [xs[j]]:
+        s.append(x)
+    return s
+
+
 def reseed(case):
     VAR.seed(_hashlib.sha256(_json.dumps(case, sort_keys=True).encode()).hexdigest())
 
@@ -243,7 +265,7 @@ def mk_pool(p, tagged):
         cost=p['cost'],
         margin=frac(p['margin']),
         reward_account=RewardAccountHash(hb(p['reward'])),
-        pool_owners=OrderedSet([VerificationKeyHash(hb(h)) for h in p['owners']], use_tag=tagged),
+        pool_owners=as_set(OrderedSet, [VerificationKeyHash(hb(h)) for h in p['owners']], tagged),
         relays=[mk_relay(r) for r in p['relays']],
         pool_metadata=opt(lambda m: PoolMetadata(txt(m[0]), PoolMetadataHash(hb(m[1]))), p['meta']))
 
@@ -372,7 +394,7 @@ def mk_gov_action(g, tagged):
         for c, e in g[3]:
             exp[mk_cred(c, CommitteeColdCredential)] = e
         return UpdateCommittee(opt(mk_gaid, g[1]),
-                               OrderedSet([mk_cred(c, CommitteeColdCredential) for c in g[2]], use_tag=tagged),
+                               as_set(OrderedSet, [mk_cred(c, CommitteeColdCredential) for c in g[2]], tagged),
                                exp, frac(g[4]))
     if k == 'constitution':
         return NewConstitution(opt(mk_gaid, g[1]), (mk_anchor(g[2]), opt(lambda h: ScriptHash(hb(h)), g[3])))
@@ -394,9 +416,9 @@ def mk_withdrawals(ws):
 
 
 def mk_body(b, tagged):
-    nes = lambda xs: NonEmptyOrderedSet(xs, use_tag=tagged)
+    nes = lambda xs: as_set(NonEmptyOrderedSet, xs, tagged)
     return TransactionBody(
-        inputs=OrderedSet([mk_input(i) for i in b['inputs']], use_tag=tagged),
+        inputs=as_set(OrderedSet, [mk_input(i) for i in b['inputs']], tagged),
         outputs=[mk_output(o) for o in b['outputs']],
         fee=b['fee'],
         ttl=b['ttl'],
@@ -440,7 +462,7 @@ WITS_ROUTE = 'ctor'      # payload["wits_route"]: "ctor" (default, the documente
 
 
 def mk_wits(w, tagged):
-    nes = lambda xs: NonEmptyOrderedSet(xs, use_tag=tagged)
+    nes = lambda xs: as_set(NonEmptyOrderedSet, xs, tagged)
     sets = dict(
         vkey_witnesses=opt(lambda l: nes([VerificationKeyWitness(VerificationKey(hb(k)), hb(s)) for k, s in l]), w['vkeys']),
         native_scripts=opt(lambda l: nes([mk_nscript(s) for s in l]), w['native']),
